@@ -495,6 +495,12 @@ func (c *cluster) setMyNodeState(state string) {
 
 func (c *cluster) setNodeState(state string) error { // nolint: unparam
 	c.setMyNodeState(state)
+	return c.reportNodeState(state)
+}
+
+// reportNodeState tells the coordinator about this node's state
+// without changing it.
+func (c *cluster) reportNodeState(state string) error {
 	if c.isCoordinator() {
 		return c.receiveNodeState(c.Node.ID, state)
 	}
@@ -1933,12 +1939,19 @@ func (c *cluster) mergeClusterStatus(cs *ClusterStatus) error {
 	for _, node := range officialNodes {
 		if node.ID == c.Node.ID && node.State != c.Node.State {
 			c.logger.Printf("mismatched state in mergeClusterStatus got %v have %v", node.State, c.Node.State)
-			go func(fromState, toState string) {
-				err := c.setNodeState(toState)
+			// The coordinator's view of this node is out of date. Keep the
+			// local state, and report the state the node has by the time
+			// the report is made; it may have moved on by then.
+			go func(fromState string) {
+				c.mu.RLock()
+				toState := c.Node.State
+				c.mu.RUnlock()
+				err := c.reportNodeState(toState)
 				if err != nil {
 					c.logger.Printf("error setting node state from %v to %v: %v", fromState, toState, err)
 				}
-			}(node.State, c.Node.State)
+			}(node.State)
+			node.State = c.Node.State
 		}
 		if err := c.addNode(node); err != nil {
 			return errors.Wrap(err, "adding node")
